@@ -4,8 +4,8 @@ from .. import env, coq, runner
 
 LEVEL = 'proof'
 META = dict(
-    text='Coq theorems (unbounded): bit packing round-trips for every number of repetitions with zero padding and little-endian-in-byte order; the constants-table interning scheme of the circuit serializer round-trips every circuit over abstract leaves with decidable equality, shares an index exactly between equal items and only refers backwards; result messages (keys x instances x qubits x packed repetitions) round-trip. The Gallina models are hand-written in the shape of the code and evaluated with vm_compute against the implementation on every run, together with direct round-trip oracles on the real serializers for circuits, sweeps, run contexts, results and device specifications.',
-    note='Trusted: Coq kernel; protobuf and numpy; the Python adapters in vf/checks/c16.py (calling cirq_google, assigning leaf identifiers by Python equality, printing Gallina literals); the leaf codecs (gate arguments, tags, conditions) are compared on generated cases, not proved. Theorems are closed under the global context.',
+    text='Coq theorems (unbounded): bit packing round-trips for every number of repetitions with zero padding and little-endian-in-byte order; the constants-table interning scheme of the circuit serializer round-trips every circuit over abstract leaves with decidable equality, shares an index exactly between equal items and only refers backwards; result messages (keys x instances x qubits x packed repetitions) round-trip; the qubit id codec (qubit_to_proto_id / qubit_from_proto_id: decimal printing, split on underscores, the grid pattern, int()) reads back every grid, line, named and coupler qubit of the documented vocabulary for all signed coordinates, ids of the vocabulary never collide, and the unrestricted statement is refuted (a named qubit called 3). The Gallina models are hand-written in the shape of the code and evaluated with vm_compute against the implementation on every run, together with direct round-trip oracles on the real serializers for circuits, sweeps, run contexts, results and device specifications.',
+    note='Trusted: Coq kernel; protobuf and numpy; the Python adapters in vf/checks/c16.py (calling cirq_google, assigning leaf identifiers by Python equality, printing Gallina literals); the leaf codecs (gate arguments, tags, conditions) are compared on generated cases, not proved; the qubit id model covers ASCII ids only; sweep values that carry units (tunits) are judged as physical quantities up to one single-precision rounding of the stored magnitude (2^-22 relative, 1e-12 with use_float64). Theorems are closed under the global context.',
     technique='Rocq/Coq proof over executable Gallina models of pack_bits, the constants table and result messages + vm_compute correspondence and round-trip oracles against cirq_google',
 )
 
@@ -71,12 +71,13 @@ def bits_stream(ctx, v2, n, shard=0):
 
 # ------------------------------------------------------------------ result messages
 def _qid(q):
-    return q.row * 100 + q.col
+    return (q.row + 50) * 1000 + (q.col + 50)          # injective on the coordinates used here (negative ones included)
 
 
 def gen_results_case(ctx, cirq, v2):
     rng = ctx.rng
-    grid = [cirq.GridQubit(r, c) for r in range(4) for c in range(4)]
+    r0, c0 = rng.choice([0, 0, -1, -2, -4, 9]), rng.choice([0, 0, -1, -3, 10])
+    grid = [cirq.GridQubit(r0 + r, c0 + c) for r in range(4) for c in range(4)]
     nkeys = rng.choice([1, 1, 2, 3, 4])
     ms = []
     for k in rng.sample(['a', 'b', 'm_0', 'zz', 'q(1, 2)', 'k5'], nkeys):
@@ -119,7 +120,7 @@ def results_stream(ctx, cirq, v2, n, shard=0):
                     qs = []
                     for qmr in mr.qubit_measurement_results:
                         r_, c_ = qmr.qubit.id.split('_')
-                        qs.append(f'({int(r_) * 100 + int(c_)}, {coq.zlist(qmr.results)})')
+                        qs.append(f'({(int(r_) + 50) * 1000 + int(c_) + 50}, {coq.zlist(qmr.results)})')
                     mrs.append(f'(mkMR {K(mr.key)} {mr.instances} [' + '; '.join(qs) + '])')
                 prs.append('[' + '; '.join(mrs) + ']')
             out.append(f'(mkSR {sr.repetitions} [' + '; '.join(prs) + '])')
@@ -223,6 +224,84 @@ def results_stream(ctx, cirq, v2, n, shard=0):
 
 
 # ------------------------------------------------------------------ circuits
+SAFE_NAMES = ['a', 'b', 'q0', 'anc', 'x-1', 'nq', 'Q', 'zz', '-', 'q 1', '1x', 'c', 'cq']       # cannot be read as another kind of id
+SAFE_UNDERSCORE_NAMES = ['anc_1', 'a_b', 'q_1', 'x_y_z', '_', 'c_x', '1_', 'q1_b']              # '_' inside, still not another form
+
+
+def spec_qubit_id(cirq, cg, q):
+    """The id of a qubit on the wire, written from the documentation of the format: `{row}_{col}` for a grid qubit, the
+    decimal `x` for a line qubit, the name for a named qubit, `c_{id0}_{id1}` for a coupler."""
+    if isinstance(q, cirq.GridQubit):
+        return '%d_%d' % (q.row, q.col)
+    if isinstance(q, cirq.LineQubit):
+        return '%d' % q.x
+    if isinstance(q, cirq.NamedQubit):
+        return q.name
+    if isinstance(q, cg.Coupler):
+        return 'c_' + spec_qubit_id(cirq, cg, q.qubit0) + '_' + spec_qubit_id(cirq, cg, q.qubit1)
+    return None
+
+
+def spec_qubit_of_id(cirq, cg, s):
+    """What an id denotes according to the documented forms ({int}_{int}, {int}, c_{int}_{int}, c_{int}_{int}_{int}_{int},
+    c_{name}_{name}, otherwise a name); None when the forms leave it open."""
+    import re
+    I = r'-?[0-9]+'
+
+    def pyint(x):
+        try:
+            int(x)
+            return True
+        except ValueError:
+            return False
+    if re.fullmatch(I, s):
+        return cirq.LineQubit(int(s))
+    m = re.fullmatch(f'({I})_({I})', s)
+    if m:
+        return cirq.GridQubit(int(m.group(1)), int(m.group(2)))
+    if pyint(s) or any((pyint(x) or pyint(x[1:] if x[:1] == 'q' else x)) and not re.fullmatch(I, x) for x in s.split('_')):
+        return None                       # '+3', ' 3', '1_0_0', 'q1': integers for Python / for the grid pattern, not of the documented form
+    f = s.split('_')
+    if s.startswith('c_') and len(f) == 3:
+        ints = [bool(re.fullmatch(I, x)) for x in f[1:]]
+        if all(ints):
+            return cg.Coupler(cirq.LineQubit(int(f[1])), cirq.LineQubit(int(f[2])))
+        return None if any(ints) else cg.Coupler(cirq.NamedQubit(f[1]), cirq.NamedQubit(f[2]))
+    if s.startswith('c_') and len(f) == 5 and all(re.fullmatch(I, x) for x in f[1:]):
+        return cg.Coupler(cirq.GridQubit(int(f[1]), int(f[2])), cirq.GridQubit(int(f[3]), int(f[4])))
+    if re.fullmatch(f'q{I}_{I}', s):
+        return None                       # accepted as a grid qubit by grid_qubit_from_proto_id, not among the forms of qubit_from_proto_id
+    return cirq.NamedQubit(s)
+
+
+def qubit_in_vocabulary(cirq, cg, q):
+    """A qubit whose documented id denotes that very qubit (a name such as '3', '1_2' or 'c_a_b', or a coupler between
+    qubits of different kinds, has an id that the documented forms give to another qubit or leave open)."""
+    return spec_qubit_of_id(cirq, cg, spec_qubit_id(cirq, cg, q)) == q
+
+
+def qubit_family(cirq, cg, kind, a=0, b=0):
+    """Nine qubits of one kind; a, b shift the coordinates (negative values included)."""
+    if kind == 'grid':
+        return [cirq.GridQubit(a + r, b + c) for r in range(3) for c in range(3)]
+    if kind == 'line':
+        return [cirq.LineQubit(a + i) for i in range(9)]
+    if kind == 'named':
+        return [cirq.NamedQubit(n) for n in (SAFE_NAMES + SAFE_UNDERSCORE_NAMES)[(a % 7):(a % 7) + 9]]
+    if kind == 'coupler_line':
+        return [cg.Coupler(cirq.LineQubit(a + i), cirq.LineQubit(a + i + 1)) for i in range(9)]
+    if kind == 'coupler_grid':
+        g = [cirq.GridQubit(a + r, b + c) for r in range(3) for c in range(3)]
+        return [cg.Coupler(x, y) for x in g for y in g if x < y and x.is_adjacent(y)][:9]
+    if kind == 'coupler_named':
+        nm = [n for n in SAFE_NAMES if n != 'c']
+        return [cg.Coupler(cirq.NamedQubit(nm[i]), cirq.NamedQubit(nm[i + 1])) for i in range(9)]
+    raise ValueError(kind)
+
+
+QUBIT_KINDS = ['grid', 'line', 'named', 'coupler_line', 'coupler_grid', 'coupler_named']
+
+
 class Vocab:
     """Generator over the serialisable vocabulary (gate types with numeric / symbolic / expression arguments, tags,
     classical controls, circuit operations over shared FrozenCircuits, moment and circuit tags)."""
@@ -230,7 +309,7 @@ class Vocab:
     def __init__(self, ctx, cirq, cg):
         import sympy
         self.rng, self.cirq, self.cg, self.sympy = ctx.rng, cirq, cg, sympy
-        self.qubits = [cirq.GridQubit(r, c) for r in range(3) for c in range(3)]
+        self.qubits = qubit_family(cirq, cg, 'grid')
         self.t, self.u = sympy.Symbol('t'), sympy.Symbol('u')
         self.cliffords = list(cirq.SingleQubitCliffordGate.all_single_qubit_cliffords)
         self.known = True      # whether inputs of the known findings may be generated
@@ -442,7 +521,17 @@ class Vocab:
     def circuit(self, allow_known=True):
         cirq, rng = self.cirq, self.rng
         self.known = allow_known
-        qubits = rng.sample(self.qubits, rng.choice([2, 3, 4, 6]))
+        # the qubits of one circuit: one kind with coordinates on both sides of zero, or a mixture of all kinds
+        r = rng.random()
+        if r < 0.4:
+            self.qubits = qubit_family(cirq, self.cg, 'grid', rng.choice([0, 0, -1, -2, 6]), rng.choice([0, 0, -1, -3, 11]))
+        elif r < 0.85:
+            self.qubits = qubit_family(cirq, self.cg, rng.choice(QUBIT_KINDS[1:]), rng.choice([0, -1, -4, -9, -12, 3]), rng.choice([0, -1, -2, 5]))
+        else:
+            # (couplers of different kinds cannot be ordered by Cirq, so one kind of coupler per circuit)
+            kinds = QUBIT_KINDS[:3] * 2 + [rng.choice(QUBIT_KINDS[3:])] * 2
+            self.qubits = list(dict.fromkeys(rng.choice(qubit_family(cirq, self.cg, k, rng.choice([0, -1, -4, 3]), rng.choice([0, -2, 5]))) for k in kinds))
+        qubits = rng.sample(self.qubits, min(len(self.qubits), rng.choice([2, 3, 4, 6])))
         keys, pool = [], []
         subs = []
         for _ in range(rng.choice([0, 0, 1, 2])):
@@ -599,11 +688,29 @@ def proto_skeleton(msg):
     return rows, (list(msg.circuit.moment_indices), list(msg.circuit.tag_indices))
 
 
-def classify_op_failure(cirq, o):
+def op_qubits(cirq, o):
+    """Every qubit an operation mentions: its own, and for a circuit operation those of its circuit and of its qubit map."""
+    u = o.untagged
+    inner = u.without_classical_controls() if isinstance(u, cirq.ClassicallyControlledOperation) else u
+    qs = set(o.qubits)
+    if isinstance(inner, cirq.CircuitOperation):
+        qs |= set(inner.qubit_map) | set(inner.qubit_map.values())
+        for x in all_ops(cirq, inner.circuit):
+            qs |= op_qubits(cirq, x)
+    return qs
+
+
+def classify_op_failure(cirq, o, back=None):
     """Signature for a single operation whose one-operation circuit does not round-trip (call-site attribution)."""
+    import cirq_google as cg
     names = [type(t).__name__ for t in o.tags]
     u = o.untagged
     inner = u.without_classical_controls() if isinstance(u, cirq.ClassicallyControlledOperation) else u
+    if back is not None and set(back.all_qubits()) != set(cirq.Circuit(o).all_qubits()):
+        lost = sorted(set(cirq.Circuit(o).all_qubits()) - set(back.all_qubits()))
+        if lost and not all(qubit_in_vocabulary(cirq, cg, q) for q in lost):
+            return 'circuit:qubit-id-ambiguous'
+        return 'circuit:qubit:' + '+'.join(sorted({type(q).__name__ for q in lost})) if lost else 'circuit:qubit:added'
     if isinstance(inner, cirq.CircuitOperation) and o.tags:
         return 'circuit:tagged-circuit-operation'
     flags = [i for i, n in enumerate(names) if n in ('PhysicalZTag', 'FSimViaModelTag', 'TwoPulseFSimTag')]
@@ -617,6 +724,12 @@ def classify_op_failure(cirq, o):
     if any(isinstance(cc, cirq.SympyCondition) and isinstance(cc.expr, sympy.Symbol) for cc in o.classical_controls):
         return 'circuit:sympy-condition-bare-symbol'
     return 'circuit:op:' + type(inner.gate).__name__
+
+
+def is_circuit_op(cirq, o):
+    u = o.untagged
+    inner = u.without_classical_controls() if isinstance(u, cirq.ClassicallyControlledOperation) else u
+    return isinstance(inner, cirq.CircuitOperation)
 
 
 def all_ops(cirq, c):
@@ -654,18 +767,22 @@ def explain_failure(ctx, cirq, S, norm, c, why, got=None):
         u = o.untagged
         inner = u.without_classical_controls() if isinstance(u, cirq.ClassicallyControlledOperation) else u
         return isinstance(inner, cirq.CircuitOperation)
-    for want_cop in (False, True):          # leaves first; a circuit operation is blamed only when none of its leaves fails
-        for o in all_ops(cirq, c):
-            if is_cop(o) != want_cop:
+    for want_cop in (False, True):          # leaves first; a circuit operation is blamed only when none of its leaves fails,
+        for o in (reversed(list(all_ops(cirq, c))) if want_cop else all_ops(cirq, c)):     # and then the innermost one only
+            if is_cop(o) != want_cop or (want_cop and found):
                 continue
+            d1 = None
             try:
                 ok1, d1 = roundtrip_ok(cirq, S, norm, cirq.Circuit(o))
                 w1 = f'got {list(d1.all_operations())!r}'
+                if set(d1.all_qubits()) != set(cirq.Circuit(o).all_qubits()):
+                    w1 = (f'qubits {sorted(set(cirq.Circuit(o).all_qubits()) - set(d1.all_qubits()))!r} come back as '
+                          f'{sorted(set(d1.all_qubits()) - set(cirq.Circuit(o).all_qubits()))!r}; ' + w1)
             except Exception as e:
                 ok1, w1 = False, f'raised {type(e).__name__}: {str(e)[:200]}'
             if not ok1:
                 found = True
-                ctx.violation(classify_op_failure(cirq, o), f'deserialize(serialize(Circuit(op))) is not Circuit(op) for op = {o!r}; {w1}'[:1500],
+                ctx.violation(classify_op_failure(cirq, o, d1), f'deserialize(serialize(Circuit(op))) is not Circuit(op) for op = {o!r}; {w1}'[:1500],
                               dict(kind='circuit', literal=circuit_literal(cirq.Circuit(o))))
         if found:
             return
@@ -752,12 +869,28 @@ def special_circuits(cirq, cg):
     ]
 
 
+def qubit_special_circuits(cirq, cg):
+    """One small program per kind of qubit and coordinate range (both sides of zero): top-level operations, a measurement
+    and a sub-circuit mapped onto other qubits of the same kind.  Then the minimal inputs of finding circuit:qubit-id-ambiguous."""
+    out = []
+    for kind in QUBIT_KINDS:
+        for a, b in ([(0, 0), (-1, -2), (-9, 3), (-3, -3), (-12, -10)] if 'named' not in kind else [(0, 0), (5, 0)]):
+            qs = qubit_family(cirq, cg, kind, a, b)
+            sub = cirq.FrozenCircuit(cirq.X(qs[0]) ** 0.25, cirq.CZ(qs[0], qs[1]))
+            out.append(cirq.Circuit(cirq.X(qs[0]) ** 0.25, cirq.CZ(qs[0], qs[1]), cirq.PhasedXZGate(x_exponent=0.5, z_exponent=0.25, axis_phase_exponent=0.125)(qs[2]),
+                                    cirq.ISWAP(qs[1], qs[2]) ** 0.5, cirq.CircuitOperation(sub, qubit_map={qs[0]: qs[3], qs[1]: qs[4]}, repetitions=2),
+                                    cirq.CircuitOperation(sub), cirq.measure(*qs[5:], key='m')))
+    for q in ambiguous_qubits(cirq, cg):
+        out.append(cirq.Circuit(cirq.X(q)))
+    return out
+
+
 def circuits_stream(ctx, cirq, cg, n, shard=0):
     S = cg.CIRCUIT_SERIALIZER
     norm, nop, _ = make_norm(cirq, cg)
     V = Vocab(ctx, cirq, cg)
     rows = []
-    todo = (special_circuits(cirq, cg) if shard == 0 else []) + [None] * n
+    todo = (special_circuits(cirq, cg) + qubit_special_circuits(cirq, cg) if shard == 0 else []) + [None] * n
     for case, c in enumerate(todo):
         if c is None:
             c = V.circuit()
@@ -772,6 +905,13 @@ def circuits_stream(ctx, cirq, cg, n, shard=0):
                 continue
             explain_failure(ctx, cirq, S, norm, c, f'serialize raised {type(e).__name__}: {str(e)[:200]}')
             continue
+        # the qubit constants carry the documented ids, one constant per qubit
+        ids = [k_.qubit.id for k_ in msg.constants if k_.WhichOneof('const_value') == 'qubit']
+        gate_qubits = {q_ for o in all_ops(cirq, c) if not is_circuit_op(cirq, o) for q_ in o.qubits}
+        want_ids = sorted(spec_qubit_id(cirq, cg, q_) for q_ in gate_qubits)
+        if sorted(ids) != want_ids:
+            ctx.violation('circuit:qubit-id-format', f'the program lists the qubit ids {sorted(ids)}; the documented ids of its qubits {sorted(gate_qubits)!r} are {want_ids}'[:1500],
+                          dict(kind='circuit', literal=circuit_literal(c)))
         try:
             ok, d = roundtrip_ok(cirq, S, norm, c)
             why = 'deserialize(serialize(c)) differs from c after float32 rounding'
@@ -810,17 +950,212 @@ def circuits_stream(ctx, cirq, cg, n, shard=0):
         ctx.mark_broken('correspondence:constants_table', f'constants table differs from the interning model for {c!r}; table skeleton {sk} top {top}'[:3000])
 
 
+def qid_lit(cirq, cg, q):
+    if isinstance(q, cirq.GridQubit):
+        return f'(Grid {coq.zlit(q.row)} {coq.zlit(q.col)})'
+    if isinstance(q, cirq.LineQubit):
+        return f'(Line {coq.zlit(q.x)})'
+    if isinstance(q, cirq.NamedQubit):
+        return f'(Named {coq.zlist(ord(ch) for ch in q.name)})'
+    return f'(Coupler {qid_lit(cirq, cg, q.qubit0)} {qid_lit(cirq, cg, q.qubit1)})'
+
+
+def ambiguous_qubits(cirq, cg):
+    L, G, N = cirq.LineQubit, cirq.GridQubit, cirq.NamedQubit
+    return [N('3'), N('-3'), N('1_2'), N('q1_2'), N('c_a_b'), N('c_1_2'), N('c_0_0_0_1'), N('+3'), cg.Coupler(G(-1, 1), L(2)), cg.Coupler(N('a_b'), N('c')),
+            cg.Coupler(cg.Coupler(L(0), L(1)), cg.Coupler(L(1), L(2)))]
+
+
+def qubit_ids_stream(ctx, cirq, cg, v2, n):
+    """qubit_to_proto_id / qubit_from_proto_id against Codec/QubitId.v and against the documented forms: every kind of qubit
+    over a grid of coordinates on both sides of zero (and far from it), then strings near and far from valid ids."""
+    rng = ctx.rng
+    L, G, N, C = cirq.LineQubit, cirq.GridQubit, cirq.NamedQubit, cg.Coupler
+    big = [10 ** 6, -10 ** 9, 123456789012345678901, -98765432109876543210]
+    coords = list(range(-12, 13)) + [99, -100, 1000]
+    qs = [L(x) for x in coords + big]
+    qs += [G(r, c) for r in range(-3, 4) for c in range(-3, 4)] + [G(rng.choice(coords + big), rng.choice(coords + big)) for _ in range(40)]
+    qs += [N(nm) for nm in SAFE_NAMES + SAFE_UNDERSCORE_NAMES]
+    qs += [C(L(x), L(x + 1)) for x in range(-6, 6)] + [C(L(rng.choice(coords + big)), L(rng.choice(coords))) for _ in range(20)]
+    qs += [C(G(r, c), G(r, c + 1)) for r in range(-2, 3) for c in range(-2, 2)] + [C(G(rng.choice(coords), rng.choice(coords)), G(rng.choice(coords + big), rng.choice(coords))) for _ in range(20)]
+    nm = [x for x in SAFE_NAMES if x != 'c']
+    qs += [C(N(a), N(b)) for a, b in zip(nm, nm[1:])]
+    qs = [q for q in dict.fromkeys(qs) if not (isinstance(q, C) and q.qubit0 == q.qubit1)]
+    rows_to, strings = [], []
+    for q in qs + ambiguous_qubits(cirq, cg):
+        in_vocab = qubit_in_vocabulary(cirq, cg, q)
+        ident = v2.qubit_to_proto_id(q)
+        back = v2.qubit_from_proto_id(ident)
+        rows_to.append((qid_lit(cirq, cg, q), [ord(ch) for ch in ident], q))
+        strings.append(ident)
+        ctx.count('qubit_id:to_from', repr(q), not isinstance(q, N) and ('-' in ident), sample=dict(qubit=repr(q), id=ident, back=repr(back)))
+        rp = dict(kind='qubit', repr=repr(q))
+        if ident != spec_qubit_id(cirq, cg, q):
+            ctx.violation('qubit_id:format', f'qubit_to_proto_id({q!r}) = {ident!r}; the documented id is {spec_qubit_id(cirq, cg, q)!r}', rp)
+        elif back != q:
+            ctx.violation('qubit_id:roundtrip:' + type(q).__name__ if in_vocab else 'circuit:qubit-id-ambiguous',
+                          f'qubit_from_proto_id(qubit_to_proto_id(q)) = {back!r} for q = {q!r} (id {ident!r})', rp)
+    alphabet = ['0', '1', '2', '9', '-', '-', '_', '_', 'c', 'q', 'a', '+', ' ', '\n', '\t']
+    for _ in range(n):
+        r = rng.random()
+        if r < 0.5:            # a valid id with one character inserted, replaced or removed
+            t = list(rng.choice(strings))
+            i = rng.randrange(len(t) + 1)
+            k = rng.choice(['ins', 'rep', 'del'])
+            if k == 'ins' or not t or i == len(t):
+                t.insert(i, rng.choice(alphabet))
+            elif k == 'rep':
+                t[i] = rng.choice(alphabet)
+            else:
+                del t[i]
+            strings.append(''.join(t))
+        elif r < 0.75:         # fields of signed numbers / letters joined by '_', with or without the coupler prefix
+            fields = [rng.choice(['0', '7', '-1', '12', '-30', 'a', 'q1', 'q-2', '', 'c', '+4', ' 5', '1x']) for _ in range(rng.choice([1, 2, 2, 3, 4, 4, 5]))]
+            strings.append(rng.choice(['', 'c_', 'c_', 'q']) + '_'.join(fields))
+        else:
+            strings.append(''.join(rng.choice(alphabet) for _ in range(rng.randint(0, 9))))
+    rows_from = []
+    for st in dict.fromkeys(strings):
+        got = v2.qubit_from_proto_id(st)
+        rows_from.append(([ord(ch) for ch in st], qid_lit(cirq, cg, got), st, got))
+        want = spec_qubit_of_id(cirq, cg, st)
+        ctx.count('qubit_id:from', st, '_' in st or '-' in st, sample=dict(id=st, qubit=repr(got)))
+        if want is not None and want != got:
+            ctx.violation('qubit_id:from:' + type(want).__name__, f'qubit_from_proto_id({st!r}) = {got!r}; by the documented forms of an id it denotes {want!r}', dict(kind='qubit_id', id=st))
+    text = ('From Coq Require Import ZArith List Bool.\nFrom VF Require Import Codec.QubitId Base.Harness.\nImport ListNotations.\nOpen Scope Z_scope.\n')
+    text += 'Definition c_to : list (qid * list Z) := [\n' + ';\n'.join(f'({ql}, {coq.zlist(i_)})' for ql, i_, _ in rows_to) + '].\n'
+    text += 'Eval vm_compute in failing (fun c => str_eqb (to_id (fst c)) (snd c)) c_to.\n'
+    text += 'Definition c_from : list (list Z * qid) := [\n' + ';\n'.join(f'({coq.zlist(i_)}, {ql})' for i_, ql, _, _ in rows_from) + '].\n'
+    text += 'Eval vm_compute in failing (fun c => qid_eqb (from_id (fst c)) (snd c)) c_from.\n'
+    vals = coq.parse_evals(coq.coq_eval(f'c16_qubit_ids_{ctx.seed}', text))
+    assert len(vals) == 2, vals
+    for idx in coq.parse_nat_list(vals[0]):
+        ctx.mark_broken('correspondence:qubit_to_proto_id', f'model and implementation differ on {rows_to[idx][2]!r}: id {"".join(map(chr, rows_to[idx][1]))!r}')
+    for idx in coq.parse_nat_list(vals[1]):
+        ctx.mark_broken('correspondence:qubit_from_proto_id', f'model and implementation differ on the id {rows_from[idx][2]!r}: implementation gives {rows_from[idx][3]!r}')
+
+
 # ------------------------------------------------------------------ sweeps and run contexts
 def f32(x):
     return float(np.float32(x))
 
 
+# values that carry a unit (tunits): the format stores a magnitude (float32, or float64 on request) next to a unit
+UNIT_FAMILIES = [('ns', 'us', 'ms'), ('MHz', 'GHz', 'kHz'), ('mV', 'V', 'uV')]
+REL32, REL64 = 2.0 ** -22, 1e-12          # one single-precision rounding of a magnitude (with slack for the unit conversion) / double precision
+
+
+def united(v):
+    import tunits
+    return isinstance(v, tunits.Value)
+
+
+class Q:
+    """A quantity with a unit inside a description.  Two of them are equal when they are compatible physical quantities that
+    agree up to the rounding the format is entitled to (rel, relative to the larger of the two and of `scale`, the largest
+    magnitude the parameter takes in the sweep: an interpolated point inherits the error of the end points)."""
+    __hash__ = None
+
+    def __init__(self, v, rel=0.0, scale=0.0):
+        self.v, self.rel, self.scale = v, rel, scale
+
+    def __eq__(self, o):
+        if not isinstance(o, Q):
+            return False
+        try:
+            o.v[self.v.unit]
+        except Exception:
+            return False                   # another dimension
+        a, b = self.v.value_in_base_units(), o.v.value_in_base_units()
+        return abs(a - b) <= max(self.rel, o.rel) * max(abs(a), abs(b), self.scale, o.scale)
+
+    def __ne__(self, o):
+        return not self.__eq__(o)
+
+    def __repr__(self):
+        return f'{self.v.value!r} {self.v.unit}'
+
+
+def value_literal(v):
+    return f'tunits.Value({v.value!r}, {str(v.unit)!r})' if united(v) else repr(v)
+
+
+def metadata_literal(md):
+    if md is None or not hasattr(md, 'device_parameters'):
+        return repr(md)
+    return (f'cirq_google.study.Metadata(device_parameters={md.device_parameters!r}, is_const={md.is_const!r}, label={md.label!r}, unit={md.unit!r})')
+
+
+def sweep_literal(cirq, s):
+    """An expression that evaluates to the sweep (repr() of values with units and of Metadata is not evaluable)."""
+    if s is cirq.UnitSweep:
+        return 'cirq.UnitSweep'
+    if isinstance(s, cirq.ListSweep):
+        return 'cirq.ListSweep([' + ', '.join('{' + ', '.join(f'{str(k)!r}: {value_literal(v)}' for k, v in pr.param_dict.items()) + '}' for pr in s) + '])'
+    for cls, attr in ((cirq.Product, 'factors'), (cirq.ZipLongest, 'sweeps'), (cirq.Zip, 'sweeps'), (cirq.Concat, 'sweeps')):
+        if isinstance(s, cls):
+            return f'cirq.{cls.__name__}(' + ', '.join(sweep_literal(cirq, f) for f in getattr(s, attr)) + ')'
+    if isinstance(s, cirq.Linspace):
+        return f'cirq.Linspace({s.key!r}, {value_literal(s.start)}, {value_literal(s.stop)}, {s.length}, metadata={metadata_literal(s.metadata)})'
+    if isinstance(s, cirq.Points):
+        return f'cirq.Points({s.key!r}, [{", ".join(value_literal(x) for x in s.points)}], metadata={metadata_literal(s.metadata)})'
+    return repr(s).replace(repr(s.metadata), metadata_literal(s.metadata)) if getattr(s, 'metadata', None) is not None else repr(s)
+
+
+def gen_metadata(ctx, cg):
+    rng = ctx.rng
+    from cirq_google.study import DeviceParameter, Metadata
+    r = rng.random()
+    if r < 0.6:
+        return None
+    path = lambda: rng.choice([['q', 'freq'], ['a'], ['x', 'y', 'z']])
+    if r < 0.85:
+        return DeviceParameter(path=path(), idx=rng.choice([None, None, 0, 3]), units=rng.choice([None, 'GHz', 'ns']))
+    dps = [DeviceParameter(path=path(), idx=rng.choice([None, 0, 2])) for _ in range(rng.choice([0, 1, 1, 2]))]
+    return Metadata(device_parameters=dps or None, label=rng.choice([None, None, 'lbl', '']), is_const=rng.random() < 0.3, unit=rng.choice([None, None, 'ns', 'MHz']))
+
+
+def gen_united_sweep(ctx, cirq, key, md):
+    """A single sweep whose values carry units: the end points / points are given in any units of one dimension."""
+    import tunits
+    rng = ctx.rng
+    fam = rng.choice(UNIT_FAMILIES)
+    unit = lambda: getattr(tunits, rng.choice(fam))
+    mag = lambda: rng.choice([rng.choice([0.1, 0.5, 1, 2, 20, 250, 500, 1 / 3, 0.0, -1.5]), round(rng.uniform(-50, 50), rng.choice([0, 2, 9]))])
+    r = rng.random()
+    if r < 0.5:
+        return cirq.Linspace(key, mag() * unit(), mag() * unit(), rng.choice([1, 2, 4, 5]), metadata=md)
+    if r < 0.85:
+        return cirq.Points(key, [mag() * unit() for _ in range(rng.choice([2, 3, 5]))], metadata=md)
+    return cirq.Points(key, [mag() * unit()], metadata=md)
+
+
+def unit_special_sweeps(cirq):
+    """The grid run for every seed: a linear sweep between end points given in every pair of units of a dimension, in both
+    directions, alone and inside Product / Zip / Concat; points in mixed units; a single value with a unit."""
+    import tunits
+    out = []
+    for fam in UNIT_FAMILIES:
+        us = [getattr(tunits, n) for n in fam]
+        for u1 in us:
+            for u2 in us:
+                out.append(cirq.Linspace('t', 0.75 * u1, 1.5 * u2, 4))
+                out.append(cirq.Linspace('t', 0.1 * u1, -250 * u2, 3))
+        a, b = us[0], us[1]
+        out += [cirq.Points('t', [20 * a, 1 * b, 0.1 * a]), cirq.Points('t', [3 * b]), cirq.Points('t', [0.1 * b]),
+                cirq.Product(cirq.Linspace('t', 100 * a, 1 * b, 3), cirq.Points('a', [0.25, 0.5])),
+                cirq.Zip(cirq.Linspace('f', 4 * b, 4500 * a, 3), cirq.Linspace('a', 0.0, 1.0, 3)),
+                cirq.Concat(cirq.Linspace('t', 1 * a, 9 * a, 3), cirq.Linspace('t', 10 * a, 1 * b, 3)),
+                cirq.ListSweep([{'t': 1 * a, 'a': 0.5}, {'t': 1 * b, 'a': 0.1}])]
+    return out
+
+
 def gen_single_sweep(ctx, cirq, cg, key):
     rng = ctx.rng
-    from cirq_google.study import DeviceParameter
-    md = None
-    if rng.random() < 0.3:
-        md = DeviceParameter(path=rng.choice([['q', 'freq'], ['a'], ['x', 'y', 'z']]), idx=rng.choice([None, None, 0, 3]), units=rng.choice([None, 'GHz', 'ns']))
+    md = gen_metadata(ctx, cg)
+    r = rng.random()
+    if r < 0.25:
+        return gen_united_sweep(ctx, cirq, key, md)
     r = rng.random()
     if r < 0.35:
         n = rng.choice([2, 3, 5])
@@ -844,6 +1179,10 @@ def gen_sweep(ctx, cirq, cg, keys, depth=0):
             ks = keys[:rng.choice([1, 2])]
             if rng.random() < 0.15 and len(keys) >= 2:      # resolvers with different key sets: known finding sweep:listsweep-heterogeneous
                 return cirq.ListSweep([{keys[0]: 1}, {keys[1]: 2}])
+            if rng.random() < 0.25:
+                import tunits
+                fam = rng.choice(UNIT_FAMILIES)
+                return cirq.ListSweep([{k: rng.choice([0.5, 1, 0.1, -2, 250]) * getattr(tunits, rng.choice(fam)) if k == ks[0] else rng.choice([0.5, 1, 0.1]) for k in ks} for _ in range(n)])
             return cirq.ListSweep([{k: rng.choice([0.5, 1, 0.1, -2]) for k in ks} for _ in range(n)])
         if r < 0.3:
             a, b = gen_single_sweep(ctx, cirq, cg, keys[0]), gen_single_sweep(ctx, cirq, cg, keys[0])
@@ -854,9 +1193,30 @@ def gen_sweep(ctx, cirq, cg, keys, depth=0):
     return rng.choice([cirq.Zip, cirq.ZipLongest, cirq.Product, cirq.Product])(a, b)
 
 
+def md_desc(md):
+    if md is None:
+        return None
+    if hasattr(md, 'device_parameters'):          # Metadata
+        return ('metadata', None if md.device_parameters is None else [(list(d.path), d.idx, d.units) for d in md.device_parameters], md.label, bool(md.is_const), md.unit)
+    return (list(md.path), md.idx, md.units)
+
+
+def without_metadata_dp_units(desc):
+    """desc with the units of the device parameters listed in a Metadata erased."""
+    if isinstance(desc, tuple) and desc and desc[0] == 'metadata':
+        return ('metadata', None if desc[1] is None else [(p_, i_, None) for p_, i_, _ in desc[1]]) + desc[2:]
+    if isinstance(desc, (tuple, list)):
+        return type(desc)(without_metadata_dp_units(x) for x in desc)
+    return desc
+
+
 def sweep_desc(cirq, s, float64):
-    """Specification-level description of a sweep: structure, keys, values (float32 unless float64), metadata."""
-    r = (lambda x: x) if float64 else (lambda x: f32(x) if isinstance(x, (int, float)) and not isinstance(x, bool) else x)
+    """Specification-level description of a sweep: structure, keys, values (float32 unless float64), metadata.  Values with a
+    unit are kept as quantities (class Q): which unit the magnitude is stored in is the format's business."""
+    rel = REL64 if float64 else REL32
+    r0 = (lambda x: x) if float64 else (lambda x: f32(x) if isinstance(x, (int, float)) and not isinstance(x, bool) else x)
+    r = lambda x: Q(x, rel) if united(x) else r0(x)
+    num = lambda x: x if isinstance(x, Q) else float(x)
     if s is cirq.UnitSweep:
         return ('unit',)
     if isinstance(s, cirq.ListSweep):
@@ -869,16 +1229,15 @@ def sweep_desc(cirq, s, float64):
         return ('zip', [sweep_desc(cirq, f, float64) for f in s.sweeps])
     if isinstance(s, cirq.Concat):
         return ('concat', [sweep_desc(cirq, f, float64) for f in s.sweeps])
-    md = getattr(s, 'metadata', None)
-    mdd = None if md is None else (list(md.path), md.idx, md.units)
+    mdd = md_desc(getattr(s, 'metadata', None))
     if isinstance(s, cirq.Linspace):
-        return ('linspace', s.key, float(r(s.start)), float(r(s.stop)), s.length, mdd)
+        return ('linspace', s.key, num(r(s.start)), num(r(s.stop)), s.length, mdd)
     if isinstance(s, cirq.Points):
         pts = list(s.points)
         if len(pts) == 1 and isinstance(pts[0], int):
             return ('points', s.key, pts, mdd)         # a single int is kept exact (const int_value)
-        return ('points', s.key, [float(r(x)) if isinstance(x, (int, float)) else x for x in pts], mdd)
-    return ('frv', s.key, sorted((float(k), f32(v) if False else float(v)) for k, v in s.distribution.items()), s.length, s.seed, mdd)
+        return ('points', s.key, [num(r(x)) if isinstance(x, (int, float)) or united(x) else x for x in pts], mdd)
+    return ('frv', s.key, sorted((float(k), float(v)) for k, v in s.distribution.items()), s.length, s.seed, mdd)
 
 
 def round_sweep(cirq, s, float64):
@@ -904,16 +1263,85 @@ def round_sweep(cirq, s, float64):
     return s
 
 
-def sweep_values(sw):
-    return [sorted((str(k), float(v) if isinstance(v, (int, float)) and not isinstance(v, bool) else v) for k, v in t) for t in sw.param_tuples()]
+def sweep_values(sw, rel=0.0):
+    """The parameter assignments a sweep yields; quantities with units are compared as such (see Q)."""
+    rows = [sorted(((str(k), v) for k, v in t), key=lambda kv: kv[0]) for t in sw.param_tuples()]
+    scale = {}
+    for row in rows:
+        for k, v in row:
+            if united(v):
+                scale[k] = max(scale.get(k, 0.0), abs(v.value_in_base_units()))
+    conv = lambda k, v: Q(v, rel, scale[k]) if united(v) else (float(v) if isinstance(v, (int, float)) and not isinstance(v, bool) else v)
+    return [[(k, conv(k, v)) for k, v in row] for row in rows]
+
+
+def expected_values(cirq, s, f64):
+    """The assignments the receiver is entitled to: stored numbers rounded to float32 unless float64 was asked for."""
+    return sweep_values(round_sweep(cirq, s, f64), REL64 if f64 else REL32)
 
 
 def hetero_listsweep(cirq, s):
     return isinstance(s, cirq.ListSweep) and len({tuple(sorted(map(str, pr.param_dict))) for pr in s}) > 1
 
 
+def unit_values_stream(ctx, cirq, cg, v2, n):
+    """What sweep_to_proto stores for values with units, against Codec/UnitValues.v: the magnitudes of all values in the unit
+    of the first one; and the values read back, as physical quantities against the originals."""
+    import math
+    import tunits
+    from fractions import Fraction
+    rng = ctx.rng
+
+    def qlit(x):
+        fr = Fraction(x)
+        return f'(({fr.numerator})%Z # {fr.denominator})'
+
+    def exp10(unit_value):
+        return round(math.log10(unit_value.value_in_base_units()))
+
+    def quant(v):
+        return f'({qlit(v.value)}, ({exp10(1 * v.unit)})%Z)'
+
+    singles = [s for s in unit_special_sweeps(cirq) if isinstance(s, (cirq.Linspace, cirq.Points))]
+    singles += [gen_united_sweep(ctx, cirq, 't', None) for _ in range(n)]
+    rows = []
+    for s in singles:
+        for f64 in (False, True):
+            msg = v2.sweep_to_proto(s, use_float64=f64).single_sweep
+            which = msg.WhichOneof('sweep')
+            if which == 'linspace':
+                vals = [s.start, s.stop]
+                stored = [msg.linspace.first_point_double, msg.linspace.last_point_double] if f64 else [msg.linspace.first_point, msg.linspace.last_point]
+                unit = tunits.Value.from_proto(msg.linspace.unit)
+            elif which == 'points':
+                vals = list(s.points)
+                stored = list(msg.points.points_double if f64 else msg.points.points)
+                unit = tunits.Value.from_proto(msg.points.unit)
+            else:
+                vals = list(s.points)
+                one = tunits.Value.from_proto(msg.const_value.with_unit_value)
+                stored, unit = [one.value], 1 * one.unit
+            d = v2.sweep_from_proto(v2.sweep_to_proto(s, use_float64=f64))
+            back = [d.start, d.stop] if isinstance(d, cirq.Linspace) else list(d.points)
+            mixed = len({str(v.unit) for v in vals}) > 1
+            ctx.count('unit_values', [sweep_literal(cirq, s), f64], mixed, sample=dict(sweep=sweep_literal(cirq, s), float64=f64, stored=stored, unit=str(unit)))
+            if not all(united(b) for b in back):
+                back = []
+            rows.append(('[' + '; '.join(quant(v) for v in vals) + ']', '[' + '; '.join(qlit(x) for x in stored) + ']', exp10(unit),
+                         '(4194304 # 1)' if not f64 else '(1000000000000 # 1)', '[' + '; '.join(quant(b) for b in back) + ']', s, f64))
+    text = ('From Coq Require Import ZArith QArith List Bool.\nFrom VF Require Import Codec.UnitValues Base.Harness.\nImport ListNotations.\n')
+    text += 'Definition cases : list (list quantity * list Q * Z * Q * list quantity) := [\n' + ';\n'.join(
+        f'({vs}, {st}, ({k})%Z, {b}, {bk})' for vs, st, k, b, bk, _, _ in rows) + '].\n'
+    text += 'Eval vm_compute in failing (fun c => match c with (vs, st, k, b, bk) => agrees b vs st k && phys_agrees b vs bk end) cases.\n'
+    vals_ = coq.parse_evals(coq.coq_eval(f'c16_unit_values_{ctx.seed}', text))
+    assert len(vals_) == 1, vals_
+    for idx in coq.parse_nat_list(vals_[0]):
+        ctx.mark_broken('correspondence:unit_values', f'stored magnitudes / decoded values differ from the model for {sweep_literal(cirq, rows[idx][5])} (use_float64={rows[idx][6]}): stored {rows[idx][1]} with unit 10^{rows[idx][2]}')
+
+
 def sweeps_stream(ctx, cirq, cg, v2, n):
     import gzip
+    import tunits
     from cirq_google.api.v2 import run_context_pb2
     rng = ctx.rng
     from cirq_google.study import DeviceParameter
@@ -923,11 +1351,19 @@ def sweeps_stream(ctx, cirq, cg, v2, n):
                 cirq.Zip(cirq.Points('a', [1, 2, 3]), cirq.Points('b', [0.5, 0.25])), cirq.ZipLongest(cirq.Points('a', [1, 2, 3]), cirq.Points('b', [0.5, 0.25])),
                 cirq.Product(cirq.Zip(cirq.Points('a', [1, 2]), cirq.Points('b', [3, 4])), cirq.Linspace('c', 0, 1, 3)),
                 cirq.Concat(cirq.Points('a', [1, 2]), cirq.Linspace('a', 0, 1, 3))]
-    for case in range(n + len(specials)):
+    from cirq_google.study import Metadata
+    specials += [cirq.Points('a', [0.1, 0.2], metadata=Metadata(device_parameters=[DeviceParameter(path=['x', 'y'], idx=0), DeviceParameter(path=['z'])], label='lbl', is_const=True, unit='ns')),
+                 cirq.Linspace('a', 0, 1, 3, metadata=Metadata()),
+                 cirq.Points('a', [0.1, 0.2], metadata=Metadata(device_parameters=[DeviceParameter(path=['x'], idx=1, units='GHz')]))]
+    specials += unit_special_sweeps(cirq)
+    todo = [(sp, f64_) for sp in specials for f64_ in (False, True)] + [(None, None)] * n      # every special in both precisions
+    for case, (s, f64) in enumerate(todo):
+        special = s is not None
         keys = rng.sample(['a', 'b', 'c', 'theta'], rng.choice([1, 2, 3]))
-        s = specials[case] if case < len(specials) else gen_sweep(ctx, cirq, cg, keys)
-        f64 = rng.random() < 0.3
-        rp = dict(kind='sweep', repr=repr(s), float64=f64)
+        if not special:
+            s = gen_sweep(ctx, cirq, cg, keys)
+            f64 = rng.random() < 0.3
+        rp = dict(kind='sweep', repr=sweep_literal(cirq, s), float64=f64)
         try:
             d = v2.sweep_from_proto(v2.sweep_to_proto(s, use_float64=f64))
         except Exception as e:
@@ -942,9 +1378,7 @@ def sweeps_stream(ctx, cirq, cg, v2, n):
         ctx.count('sweep:roundtrip', [repr(s), f64], nontriv, sample=dict(sweep=repr(s), float64=f64, back=repr(d)))
         if isinstance(s, cirq.ListSweep):
             # a ListSweep travels as a Zip of Points: the parameter assignments are what must survive
-            r = (lambda x: x) if f64 else f32
-            e_res = [sorted((str(k), r(v)) for k, v in pr.param_dict.items()) for pr in s]
-            g_res = [sorted((str(k), float(v)) for k, v in pr.param_dict.items()) for pr in d]
+            e_res, g_res = sweep_desc(cirq, s, f64)[1], sweep_desc(cirq, cirq.ListSweep(d), True)[1]
             if e_res != g_res:
                 hetero = len({tuple(sorted(map(str, pr.param_dict))) for pr in s}) > 1
                 ctx.violation('sweep:listsweep-heterogeneous' if hetero else 'sweep:listsweep', f'{s!r} comes back as {d!r} with assignments {g_res}, expected {e_res}', rp)
@@ -953,6 +1387,8 @@ def sweeps_stream(ctx, cirq, cg, v2, n):
             sig = 'sweep:roundtrip'
             if 'idx=0' in repr(s) and str(exp).replace("'], 0, ", "'], None, ") == str(got):
                 sig = 'sweep:device-parameter-idx-zero'
+            elif without_metadata_dp_units(exp) == got:
+                sig = 'sweep:metadata-device-parameter-units'
             ctx.violation(sig, f'sweep_from_proto(sweep_to_proto(s, use_float64={f64})) = {d!r} ({got}); expected {exp} for s = {s!r}', rp)
         else:
             if isinstance(s, cg.study.FiniteRandomVariable) and len(s.distribution) > 1:
@@ -963,15 +1399,16 @@ def sweeps_stream(ctx, cirq, cg, v2, n):
                     ctx.violation('sweep:finite-random-variable-order',
                                   f'{s!r} and the same sweep with its distribution listed in another order (what a decoded proto map may give) are equal but yield '
                                   f'{sweep_values(s)} and {sweep_values(alt)}', rp)
-            e_vals, g_vals = sweep_values(round_sweep(cirq, s, f64)), sweep_values(d)
+            e_vals, g_vals = expected_values(cirq, s, f64), sweep_values(d)
             if e_vals != g_vals:
-                sig = 'sweep:finite-random-variable-order' if 'FiniteRandomVariable' in repr(s) else 'sweep:values'
+                sig = 'sweep:finite-random-variable-order' if 'FiniteRandomVariable' in repr(s) else ('sweep:values-with-units' if 'Value(' in sweep_literal(cirq, s) else 'sweep:values')
                 ctx.violation(sig, f'the decoded sweep is equal in structure but yields other parameter values: {g_vals} instead of {e_vals} for {s!r} -> {d!r}', rp)
         # ---- run context: sweepable + repetitions
-        if rng.random() < 0.5:
-            kind = rng.choice(['none', 'dict', 'dicts', 'sweep', 'sweeps', 'resolver'])
+        if special or rng.random() < 0.5:
+            kind = 'sweep' if special else rng.choice(['none', 'dict', 'dicts', 'sweep', 'sweeps', 'resolver', 'dict_units'])
             sweepable = {'none': None, 'dict': {'a': 0.5, 'b': 2}, 'dicts': [{'a': 0.5}, {'a': 0.25, 'b': 1}], 'sweep': s,
-                         'sweeps': [s, gen_sweep(ctx, cirq, cg, keys)], 'resolver': cirq.ParamResolver({'a': 0.1})}[kind]
+                         'sweeps': [s, gen_sweep(ctx, cirq, cg, keys)], 'resolver': cirq.ParamResolver({'a': 0.1}),
+                         'dict_units': {'a': 0.5, 't': 0.1 * tunits.us}}[kind]
             nsw = len(cirq.to_sweeps(sweepable))
             reps = rng.choice([rng.randint(1, 1000), [rng.randint(1, 50) for _ in range(nsw)], [5, 6, 7] if nsw == 1 else [1] * (nsw + 1)])
             compress = rng.random() < 0.3
@@ -993,21 +1430,20 @@ def sweeps_stream(ctx, cirq, cg, v2, n):
             if any(hetero_listsweep(cirq, e) for e in sl):
                 exp_reps = None          # refused by sweep_to_proto
             ok = (got_reps is None) == (exp_reps is None) and (got_reps is None or (
-                got_reps == exp_reps and [sweep_values(g) for g in got_sw] == [sweep_values(round_sweep(cirq, e, f64)) for e in sl]))
+                got_reps == exp_reps and [sweep_values(g) for g in got_sw] == [expected_values(cirq, e, f64) for e in sl]))
             ctx.count('run_context', [kind, repr(sweepable), repr(reps), compress, f64], isinstance(reps, list) and len(reps) > 1,
                       sample=dict(sweepable=repr(sweepable)[:300], repetitions=reps, compressed=compress, decoded_repetitions=got_reps))
             if not ok:
                 # is it the run context, or one of its sweeps on its own (a known sweep-level finding)?
                 sig = 'run_context:roundtrip'
-                noidx = lambda dsc: str(dsc).replace("'], 0, ", "'], None, ")
                 if got_reps == exp_reps and got_sw is not None and len(got_sw) == len(sl):
                     sigs = set()
                     for e, g in zip(sl, got_sw):
-                        if sweep_values(g) == sweep_values(round_sweep(cirq, e, f64)):
+                        if sweep_values(g) == expected_values(cirq, e, f64):
                             continue
                         if isinstance(e, cirq.ListSweep):
                             sigs.add('sweep:listsweep-heterogeneous' if len({tuple(sorted(map(str, pr.param_dict))) for pr in e}) > 1 else 'run_context:roundtrip')
-                        elif 'FiniteRandomVariable' in repr(e) and noidx(sweep_desc(cirq, g, True)) == noidx(sweep_desc(cirq, e, f64)):
+                        elif 'FiniteRandomVariable' in repr(e) and sweep_desc(cirq, g, True) == sweep_desc(cirq, e, f64):
                             sigs.add('sweep:finite-random-variable-order')
                         else:
                             sigs.add('run_context:roundtrip')
@@ -1116,7 +1552,7 @@ def spec_accepts(cirq, cg, proto, op):
             ok |= isinstance(gate, cirq.ResetChannel)
     if not ok:
         return False
-    ids = [v2.qubit_to_proto_id(q) for q in op.qubits]
+    ids = ['%d_%d' % (q.row, q.col) for q in op.qubits]          # the documented id of a grid qubit
     if any(i not in proto.valid_qubits for i in ids):
         return False
     if len(ids) == 2 and not isinstance(gate, (cirq.MeasurementGate, cirq.WaitGate)):
@@ -1138,13 +1574,14 @@ def devices_stream(ctx, cirq, cg, n):
     from cirq_google.devices import grid_device as gd
     from cirq_google.ops import PhysicalZTag, FSimViaModelTag, TwoPulseFSimTag
     rng = ctx.rng
-    grid = [cirq.GridQubit(r, c) for r in range(3) for c in range(3)]
     fam = {gr.gate_spec_name: gr.supported_gates for gr in gd._GATES}
     test_gates1 = [cirq.X, cirq.Y ** 0.3, cirq.Z ** 0.2, cirq.H, cirq.PhasedXZGate(x_exponent=0.1, z_exponent=0.2, axis_phase_exponent=0.3), cirq.I,
                    cirq.rx(0.3), cirq.ResetChannel(), cirq.WaitGate(cirq.Duration(nanos=5)), cg.InternalGate('g', 'm', 1), cirq.S, cirq.T]
     test_gates2 = [cirq.CZ, cirq.CZ ** 0.5, cirq.CZ ** -1, cg.SYC, cirq.SQRT_ISWAP, cirq.SQRT_ISWAP_INV, cirq.ISWAP, cirq.FSimGate(np.pi / 2, np.pi / 6),
                    cirq.FSimGate(0.3, 0.4), cirq.CNOT, cirq.SWAP, cirq.ISWAP ** 0.5, cirq.WaitGate(cirq.Duration(nanos=5), num_qubits=2)]
     for case in range(n):
+        r0, c0 = ((0, 0), (2, 1), (0, 0), (7, 12), (-1, 0))[case % 5 if case < 10 else rng.randrange(5)]
+        grid = [cirq.GridQubit(r0 + r, c0 + c) for r in range(3) for c in range(3)]
         qs = rng.sample(grid, rng.choice([2, 4, 6, 9]))
         adj = [(a, b) for a in qs for b in qs if a < b and a.is_adjacent(b)]
         pairs = rng.sample(adj, rng.randint(0, len(adj))) if adj else []
@@ -1157,7 +1594,14 @@ def devices_stream(ctx, cirq, cg, n):
             dev = cg.GridDevice._from_device_information(qubit_pairs=pairs, gateset=gateset, gate_durations=durs, all_qubits=qs)
         except ValueError:
             continue                       # inconsistent durations for one gate representation: not a device
-        proto = dev.to_proto()
+        try:
+            proto = dev.to_proto()
+        except ValueError as e:
+            if min(r0, c0) < 0 and any(q.row < 0 or q.col < 0 for q in qs):
+                # a specification names its qubits '<int>_<int>' with unsigned integers: a device on other qubits is refused
+                ctx.count('device:rejected', rp, True, sample=dict(rp, rejected=str(e)[:120]))
+                continue
+            raise
         if rng.random() < 0.4:             # qubit attributes only exist on devices read from a specification
             for q in rng.sample(qs, rng.randint(1, len(qs))):
                 a = proto.qubit_attributes[f'{q.row}_{q.col}']
@@ -1214,29 +1658,41 @@ def run(ctx):
     cirq, cg = mods['cirq'], mods['cirq_google']
     from cirq_google.api import v2
     ctx.rule = ('bits: random bool arrays of length 0..300 (dense around multiples of 8) and random byte strings with any '
-                'repetition count; non-trivial = mixed bits, >= 2 long; distinct by canonical input')
+                'repetition count; non-trivial = mixed bits, >= 2 long; distinct by canonical input. circuits: generated over the serialisable '
+                'vocabulary on grid / line / named / coupler qubits with coordinates on both sides of zero (one fixed program per kind and '
+                'coordinate range for every seed). qubit ids: every kind of qubit over coordinates -12..12 and far from zero, then '
+                'strings near valid ids. sweeps: generated Points / Linspace / ListSweep / FiniteRandomVariable under Product / Zip / '
+                'ZipLongest / Concat with DeviceParameter or Metadata, values plain or carrying units of mixed scale (a fixed grid of '
+                'unit pairs x both precisions x run context for every seed)')
     ctx.assumptions += ['vf/checks/c16.py adapters calling cirq_google and canonicalising outputs',
                         'protobuf and numpy are trusted', 'leaf identifiers are assigned by Python equality/hash']
     ctx.set_obligations(coq.compile_props('C16'))
     q = ctx.tier == 'quick'
-    try:
-        streams(ctx, cirq, cg, v2, q)
-    except Exception:
-        import traceback
-        ctx.mark_broken('harness-exception', traceback.format_exc()[-2000:])
+    for name, thunk in streams(ctx, cirq, cg, v2, q):
+        try:                                     # a stream that dies (it does on some broken trees) must not silence the others
+            thunk()
+        except Exception:
+            import sys
+            import traceback
+            sys.stderr.write(traceback.format_exc()[-3000:])
+            ctx.mark_broken('harness-exception:' + name, traceback.format_exc()[-2000:])
 
 
 def streams(ctx, cirq, cg, v2, q):
+    out = []
     for shard in range(1 if q else 10):          # cases files stay below ~500 cases each
-        bits_stream(ctx, v2, 300, shard)
+        out.append(('bits', lambda shard=shard: bits_stream(ctx, v2, 300, shard)))
     for shard in range(1 if q else 10):
-        results_stream(ctx, cirq, v2, 120, shard)
+        out.append(('results', lambda shard=shard: results_stream(ctx, cirq, v2, 120, shard)))
     nc = 150 if q else 1500
     for shard in range(0, nc, 150):
-        circuits_stream(ctx, cirq, cg, min(150, nc - shard), shard)
-    multi_stream(ctx, cirq, cg, 25 if q else 250)
-    sweeps_stream(ctx, cirq, cg, v2, 250 if q else 2500)
-    devices_stream(ctx, cirq, cg, 60 if q else 600)
+        out.append(('circuits', lambda shard=shard: circuits_stream(ctx, cirq, cg, min(150, nc - shard), shard)))
+    out.append(('multi', lambda: multi_stream(ctx, cirq, cg, 25 if q else 250)))
+    out.append(('qubit_ids', lambda: qubit_ids_stream(ctx, cirq, cg, v2, 300 if q else 3000)))
+    out.append(('unit_values', lambda: unit_values_stream(ctx, cirq, cg, v2, 60 if q else 400)))
+    out.append(('sweeps', lambda: sweeps_stream(ctx, cirq, cg, v2, 250 if q else 2500)))
+    out.append(('devices', lambda: devices_stream(ctx, cirq, cg, 60 if q else 600)))
+    return out
 
 
 def replay(ctx, data):
@@ -1259,8 +1715,18 @@ def replay(ctx, data):
     import sympy
     import cirq_google.ops as cgops
     from cirq_google.ops.calibration_tag import CalibrationTag
-    ns = dict(cirq=cirq, cirq_google=cg, sympy=sympy, np=np, numpy=np, CalibrationTag=CalibrationTag)
+    import tunits
+    ns = dict(cirq=cirq, cirq_google=cg, sympy=sympy, np=np, numpy=np, CalibrationTag=CalibrationTag, tunits=tunits)
     ns.update({n_: getattr(cgops, n_) for n_ in dir(cgops) if not n_.startswith('_')})
+    if k == 'qubit':
+        q_ = eval(data['repr'], ns)
+        back = v2.qubit_from_proto_id(v2.qubit_to_proto_id(q_))
+        print('id', repr(v2.qubit_to_proto_id(q_)), 'back', repr(back))
+        return back == q_ and v2.qubit_to_proto_id(q_) == spec_qubit_id(cirq, cg, q_)
+    if k == 'qubit_id':
+        got, want = v2.qubit_from_proto_id(data['id']), spec_qubit_of_id(cirq, cg, data['id'])
+        print('id', repr(data['id']), 'denotes', repr(got), 'documented', repr(want))
+        return want is None or got == want
     if k == 'circuit':
         c = eval(data['literal'], ns)
         norm, _, _ = make_norm(cirq, cg)
@@ -1287,8 +1753,8 @@ def replay(ctx, data):
         print('in :', repr(s_))
         print('out:', repr(d))
         if isinstance(s_, cirq.ListSweep):
-            return sweep_values(round_sweep(cirq, s_, f64)) == sweep_values(d)
-        return sweep_desc(cirq, s_, f64) == sweep_desc(cirq, d, True) and sweep_values(round_sweep(cirq, s_, f64)) == sweep_values(d)
+            return expected_values(cirq, s_, f64) == sweep_values(d)
+        return sweep_desc(cirq, s_, f64) == sweep_desc(cirq, d, True) and expected_values(cirq, s_, f64) == sweep_values(d)
     if k == 'results':
         ms = [v2.MeasureInfo(key=m['key'], qubits=[cirq.GridQubit(*q) for q in m['qubits']], instances=m['instances'], invert_mask=[False] * len(m['qubits']), tags=[])
               for m in data['measurements']]
